@@ -6,17 +6,8 @@ from . import contract
 
 TB = 'static_frame/core/type_blocks.py'
 
-# ASSUMED contract of the key translation with retain_key_order=False (its tiling core is proved separately:
-# _indices_to_contiguous_pairs / _cols_to_slice / slice_to_ascending_slice; the composition is not)
-contract(TB, 'TypeBlocks._key_to_block_slices', key='TypeBlocks._key_to_block_slices', assumed=True,
-    params=dict(self='TypeBlocks'), order=['self', 'key', 'retain_key_order'], defaults=dict(retain_key_order='True'),
-    result='list[tuple[int,slice]]',
-    ensures=[
-        'forall_in(0, len(result), lambda k: 0 <= at(result, k)[0] and at(result, k)[0] < len(self._blocks) and is_none(at(result, k)[1].step) and not is_none(at(result, k)[1].start) and not is_none(at(result, k)[1].stop)'
-        ' and 0 <= at(result, k)[1].start and at(result, k)[1].start < at(result, k)[1].stop and at(result, k)[1].stop <= W(at(self._blocks, at(result, k)[0])))',
-        # ascending by block, disjoint and ascending within a block
-        'forall(lambda a, b: implies(0 <= a and a < b and b < len(result), at(result, a)[0] <= at(result, b)[0] and implies(at(result, a)[0] == at(result, b)[0], at(result, a)[1].stop <= at(result, b)[1].start)))',
-    ])
+# the key translation `_key_to_block_slices` (retain_key_order=False) is under its own contract in t1_slices.py: proved for None / slice / integer-list keys;
+# for a single integer and for Boolean-array keys the generators below rely on the same statement as an ASSUMPTION (listed in the evidence)
 
 _P = 'it_pos(block_slices)'
 _PEND = 'not is_none(target_block_idx)'
